@@ -118,7 +118,9 @@ def worker_loop(
                                 msg.ack()
                             except Exception:
                                 pass
-                            continue
+                            # Reported to the master below: the job's Future must
+                            # not be left pending.
+                            raise
                     if not isinstance(pcfg, list) or not all(
                         isinstance(step, dict) for step in pcfg
                     ):
@@ -126,7 +128,9 @@ def worker_loop(
                             f"Invalid pipeline configuration received for job {job_id}: {pcfg}"
                         )
                         msg.ack()  # acknowledge to remove the message if applicable
-                        continue  # skip processing this message
+                        raise TypeError(
+                            f"Invalid pipeline configuration received for job {job_id}"
+                        )
                     # An empty collection is falsy but is still the job's payload.
                     data = msg.data if msg.data is not None else NoDataType()
                     context = msg.context or ContextType()
